@@ -1,18 +1,52 @@
 (* C03 — levels and duplication events are reconstructed by the MRCA rule. *)
 From Coq Require Import List Arith Bool String Permutation.
-From PyHam Require Import Tax Ortho Loader Mapper Preds Hist.
-From PyHam.proofs Require Import LoaderFacts ExplicitFacts.
+From PyHam Require Import Tax Ortho Loader Mapper Preds Hist Spell.
+From PyHam.proofs Require Import LoaderFacts ExplicitFacts ChainFacts SpellFacts.
 Import ListNotations.
 
-(* PARTIAL (see DESIGN.md, C03): "for fully explicit encodings the loaded hierarchy equals the simulated
-   true history" is proved, for all trees and all well-formed histories, without bound.  `matches h x`
-   says: x sits at the taxon of h and its children are, up to order, one unflagged child per plain
-   lineage and one duplication node (flag shared by >= 2 children) per duplication of h, each child
-   matching the corresponding member recursively.  The element-level form (c03_member) holds for a
-   group at any depth, inside or outside a paralogGroup.
-   The clauses about encodings with omitted levels (materialised single-child HOGs), copies several
-   levels below their group and maximal nests of paralogGroups are checked on the implementation
-   against the generating history (oracle) and tied to the model by correspondence, not proved. *)
+(* "The loaded hierarchy equals the simulated true history", for every species tree, every well-formed
+   history and every permitted spelling of it (Spell.v), without bound.  `matches h x` says: x sits at the
+   taxon of h and its children are, up to order, one unflagged child per plain lineage and one
+   duplication node (flag shared by >= 2 children) per duplication of h, each child matching the
+   corresponding member recursively.  The clauses of the statement are instances: an orthologGroup is
+   placed at the MRCA of its members (one level above when they share a taxon, never below a duplication
+   it contains: close_level in SpellFacts.v); a maximal nest of paralogGroups becomes one duplication whose
+   copies sit at their common-ancestor taxon under a HOG one level above (nest_eval, rehome_spec); every
+   skipped level is materialised as a single-child HOG (ChainFacts.chain_completes).
+   Not covered by the spelling relation: LOFT attributes on geneRefs. *)
+Theorem c03_any_spelling : forall t d hs,
+  Forall (species_sane t) (d_species d) -> NoDup (declared d) -> Forall2 (spells_top t) hs (d_groups d) ->
+  (forall genes, map fst genes = declared d ->
+     (forall g p, In (g, p) genes -> exists sp, In sp (d_species d) /\ In g (map gd_id (sp_genes sp)) /\ species_resolves t sp p) ->
+     Forall (WFh t genes) hs) ->
+  exists l, load t d = Ok l /\
+    Forall2 (fun h top => matches h (snd top) /\ htax (snd top) = xtax h /\ wf_node t (snd top) = true) hs (l_tops l).
+Proof. exact spelt_load. Qed.
+Print Assumptions c03_any_spelling.
+
+(* element-level form: a spelt member, at any depth, inside or outside a paralogGroup, leaves in the
+   open group either one element representing the history (a node matching the history itself or the
+   first spelt-out level below it, the levels in between being single-lineage ones), or - for a level that
+   consists of one duplication - that duplication's copies under one fresh flag whose level is known *)
+Theorem c03_spelt_member : forall t genes h,
+  WFh t genes h -> forall mp its lv, sp_member t mp h its lv -> member_claim t genes h its lv.
+Proof. intros t genes h. exact (spelt_evaluates t genes h). Qed.
+Print Assumptions c03_spelt_member.
+
+(* every level the file skips between a HOG and a member is materialised as a single-child HOG *)
+Theorem c03_skipped_levels : forall t genes hid h y q b o,
+  WFh t genes h -> rep t h y -> xtax h = b :: q ->
+  let top := chain_pure o hid (path_up (htax y) q) None y in
+  matches h top /\ htax top = xtax h /\ wf_node t top = true.
+Proof. intros t genes hid h y q b o. exact (chain_completes t genes hid h y q b o). Qed.
+Print Assumptions c03_skipped_levels.
+
+(* the fully explicit encoding is one of the spellings *)
+Theorem c03_explicit_is_a_spelling : forall t genes p lins,
+  WFh t genes (XH p lins) -> spells_top t (XH p lins) (enc (XH p lins)).
+Proof. exact enc_spells_top. Qed.
+Print Assumptions c03_explicit_is_a_spelling.
+
 Theorem c03_explicit : forall t d hs,
   Forall (species_sane t) (d_species d) -> NoDup (declared d) -> d_groups d = map enc hs ->
   (forall genes, map fst genes = declared d ->
@@ -58,6 +92,50 @@ Definition doc0 : doc :=
      d_groups := [enc h0] |}.
 Example c03_nonvacuous :
   match load tr doc0 with
+  | Ok l => map (fun top => (htax (snd top), wf_node tr (snd top), List.length (hogs_of (snd top)))) (l_tops l) = [([], true, 4)]
+  | Err _ => False
+  end.
+Proof. vm_compute. reflexivity. Qed.
+
+(* a spelling that leaves out two levels and spells a one-duplication level as its paralogGroup, with one
+   copy two levels below the other: it is a permitted spelling, and it loads to the history *)
+Definition genes1 : list (string * taxon) := [("h1", [0; 0; 1]); ("h2", [0; 0; 1]); ("p1", [1; 0; 1]); ("c1", [1; 1]); ("x1", [0])].
+Definition h1 : hist :=
+  XH [] [[XG "x1" [0]];
+         [XH [1] [[XH [0; 1] [[XG "h1" [0; 0; 1]]; [XG "p1" [1; 0; 1]]]; XH [0; 1] [[XG "h2" [0; 0; 1]]]]]]].
+Definition it1 : item :=
+  IOG (Some "fam") None
+      [IGene "x1" None;
+       IPG None [IOG None None [IGene "h1" None; IProp "TaxRange" "E"; IGene "p1" None];
+                 IPG None [IGene "h2" None]]].
+Example c03_spelling_nonvacuous : spells_top tr h1 it1 /\ WFh tr genes1 h1.
+Proof.
+  split.
+  - exists [], [[XG "x1" [0]]; [XH [1] [[XH [0; 1] [[XG "h1" [0; 0; 1]]; [XG "p1" [1; 0; 1]]]; XH [0; 1] [[XG "h2" [0; 0; 1]]]]]]],
+      (Some "fam"), None, [IGene "x1" None;
+       IPG None [IOG None None [IGene "h1" None; IProp "TaxRange" "E"; IGene "p1" None]; IPG None [IGene "h2" None]]].
+    split; [reflexivity|]. split; [reflexivity|]. split.
+    + apply (sb_orth tr false [] (XG "x1" [0]) _ [IGene "x1" None] (Some [0])); [constructor|discriminate|].
+      apply (sb_orth tr false [] _ [] [IPG None _] None _); [|discriminate|constructor].
+      apply (sm_omit_para tr [1] _ None _ [[0; 1]; [0; 0; 1]]); [simpl; auto| |].
+      * apply (su_copy tr _ _ [IOG None None _] [0; 1]).
+        -- apply sm_explicit.
+           ++ apply (sb_orth tr false [0; 1] _ _ [IGene "h1" None] (Some [0; 0; 1])); [constructor|discriminate|].
+              apply sb_annot; [exact I|].
+              apply (sb_orth tr false [0; 1] _ [] [IGene "p1" None] (Some [1; 0; 1])); [constructor|discriminate|constructor].
+           ++ unfold label_ok. simpl. intros l H. discriminate.
+        -- apply (su_nest tr None [XH [0; 1] [[XG "h2" [0; 0; 1]]]] [] [IGene "h2" None] [] [[0; 0; 1]] []); [discriminate| |constructor].
+           apply (su_copy tr _ [] [IGene "h2" None] [0; 0; 1] [] []); [|constructor].
+           apply sm_omit. constructor.
+      * right. exists [0; 1], [[0; 0; 1]]. split; [reflexivity|]. split; [discriminate|reflexivity].
+    + unfold label_ok. simpl. exact I.
+  - cbn. repeat split; try discriminate; try reflexivity; repeat constructor; simpl; intuition discriminate.
+Qed.
+
+Definition doc1 : doc :=
+  {| d_species := d_species doc0; d_groups := [it1] |}.
+Example c03_spelling_loads :
+  match load tr doc1 with
   | Ok l => map (fun top => (htax (snd top), wf_node tr (snd top), List.length (hogs_of (snd top)))) (l_tops l) = [([], true, 4)]
   | Err _ => False
   end.
